@@ -1,25 +1,35 @@
 #!/bin/bash
-# usage: selftest.sh [<property-regex>]
+# usage: selftest.sh [<property-or-seed-regex>]
 # Must-fail corpus: every seeded change (/verif/seeded/<id>/patch.diff, property from meta.json) and every
-# mutant (/verif/selftest/<prop>/*.patch) is applied to /repo (which must be clean), the property's quick
-# check is run and must report a VIOLATION (exit 1); /repo is restored afterwards.
+# mutant (/verif/selftest/<prop>/*.patch) is applied to a scratch copy of /repo's committed HEAD (under
+# $VERIF_SCRATCH, outside /repo and /verif, removed afterwards); the property's quick check is run against
+# that copy with a scratch copy of /verif's inputs (so evidence and replays of /verif are left alone) and must
+# report a VIOLATION (exit 1).
 cd /verif
+export GOFLAGS=-mod=mod GOPROXY=off GOSUMDB=off GOTOOLCHAIN=local
 want=${1:-.}
-if [ -n "$(git -C /repo status --porcelain)" ]; then echo "REFUSING: /repo has uncommitted changes"; exit 2; fi
+base=${VERIF_SCRATCH:-/var/tmp/verif-scratch}/selftest.$$
+mkdir -p "$base"
+trap 'rm -rf "$base"' EXIT
+# freeze what is tested at start: /repo's HEAD commit, the govc binary and /verif's inputs (so that work can go on meanwhile)
+commit=$(git -C /repo rev-parse HEAD)
+cp bin/govc "$base/govc"
+mkdir -p "$base/in"; cp -r /verif/contracts /verif/replay /verif/scripts /verif/known_findings.txt "$base/in/"
 fail=0
 run() { # <label> <prop> <patch>
   local label=$1 prop=$2 patch=$(realpath "$3")
-  if ! git -C /repo apply --check "$patch" 2>/dev/null; then echo "SKIP  $label ($prop): patch does not apply"; return; fi
-  git -C /repo apply "$patch"
-  [ -f "evidence/$prop.json" ] && cp "evidence/$prop.json" "/var/tmp/selftest-evidence.$$"
-  out=$(bin/govc check "$prop" 2>&1); rc=$?
-  [ -f "/var/tmp/selftest-evidence.$$" ] && mv "/var/tmp/selftest-evidence.$$" "evidence/$prop.json"   # evidence comes from clean runs only
-  git -C /repo checkout -q -- . ; git -C /repo clean -fdq
+  local r="$base/repo" v="$base/verif"
+  rm -rf "$r" "$v"; mkdir -p "$r" "$v"
+  git -C /repo archive $commit | tar -x -C "$r"
+  cp -r "$base/in/." "$v/"; mkdir -p "$v/evidence" "$v/replays"
+  if ! (cd "$r" && git apply --check "$patch" 2>/dev/null || patch -p1 --dry-run -s < "$patch" >/dev/null 2>&1); then echo "SKIP   $label ($prop): patch does not apply"; return; fi
+  (cd "$r" && (git apply "$patch" 2>/dev/null || patch -p1 -s < "$patch"))
+  out=$("$base/govc" check "$prop" -repo "$r" -verif "$v" 2>&1); rc=$?
   n=$(echo "$out" | grep -c '^VIOLATION')
   if [ $rc -eq 1 ] && [ "$n" -gt 0 ]; then
     echo "CAUGHT $label ($prop): $n violations; first: $(echo "$out" | grep '^VIOLATION' | head -1 | sed 's/.*obligation=//')"
   else
-    echo "MISSED $label ($prop) rc=$rc"; fail=1
+    echo "MISSED $label ($prop) rc=$rc: $(echo "$out" | tail -1)"; fail=1
   fi
 }
 for d in seeded/*/; do
